@@ -307,6 +307,12 @@ func rulePlaceholderTaint(c *Ctx, r *Report) {
 						hits = append(hits, sinkHit{x, "passed to " + callee.Name() + ": the text would be tokenised as Prolog syntax; flow: " + trail(v)})
 						continue
 					}
+					// (after seed C15f) a regular expression applied to the host's text treats it as written syntax:
+					// the escape patterns of quoted tokens turn `C:\new` into C:<newline>ew
+					if callee != nil && callee.Signature.Recv() != nil && isNamedIn(deref(callee.Signature.Recv().Type()), "regexp", "Regexp") && i > 0 {
+						hits = append(hits, sinkHit{x, "matched against a regular expression (" + callee.Name() + "): the host's text is examined as if it were the inside of a quoted token (escape sequences are applied to it); flow: " + trail(v)})
+						continue
+					}
 					if callee != nil && c.isLibPkg(funcPkg(callee)) && callee.Blocks != nil {
 						taint(paramOf(callee, i))
 						continue
@@ -807,6 +813,7 @@ func ruleSolutionsTypestate(c *Ctx, r *Report) {
 			}
 			// a bool field that (i) guards the send (==false) and (ii) is set true where ok==false, or assigned !ok
 			accepted := ""
+			escapeAt := ""
 			for i := 0; i < st.NumFields(); i++ {
 				if b, ok := st.Field(i).Type().Underlying().(*types.Basic); !ok || b.Kind() != types.Bool {
 					continue
@@ -815,6 +822,8 @@ func ruleSolutionsTypestate(c *Ctx, r *Report) {
 					continue
 				}
 				setOnExhaust := false
+				unconditional := false
+				var setStores []*ssa.Store
 				eachInstr(fn, func(in2 ssa.Instruction) {
 					s2, ok := in2.(*ssa.Store)
 					if !ok {
@@ -828,13 +837,63 @@ func ruleSolutionsTypestate(c *Ctx, r *Report) {
 						for f := range c.factsAt(s2.Block()) {
 							if f.cond == recvOK && !f.pol {
 								setOnExhaust = true
+								setStores = append(setStores, s2)
 							}
 						}
 					}
 					if u, ok := s2.Val.(*ssa.UnOp); ok && u.Op == token.NOT && u.X == recvOK {
 						setOnExhaust = true
+						unconditional = true
 					}
 				})
+				// (after seed C13f) ... on EVERY path on which the channel was found closed: from the receive no
+				// return is reachable along edges compatible with ok == false without passing such a store
+				if setOnExhaust && !unconditional {
+					avoid := map[*ssa.BasicBlock]bool{}
+					for _, s2 := range setStores {
+						avoid[s2.Block()] = true
+					}
+					recvBlock := recvOK.(*ssa.Extract).Block()
+					seen := map[*ssa.BasicBlock]bool{}
+					var escape *ssa.BasicBlock
+					var walk func(b *ssa.BasicBlock)
+					walk = func(b *ssa.BasicBlock) {
+						if seen[b] || escape != nil {
+							return
+						}
+						seen[b] = true
+						if avoid[b] && b != recvBlock {
+							return
+						}
+						if _, isRet := b.Instrs[len(b.Instrs)-1].(*ssa.Return); isRet {
+							escape = b
+							return
+						}
+						cond := ifCond(b)
+						neg := false
+						for {
+							u, ok := cond.(*ssa.UnOp)
+							if !ok || u.Op != token.NOT {
+								break
+							}
+							cond, neg = u.X, !neg
+						}
+						for si, sc := range b.Succs {
+							if cond == recvOK && len(b.Succs) == 2 {
+								// the edge on which ok is true is not of interest
+								if (si == 0) != neg {
+									continue
+								}
+							}
+							walk(sc)
+						}
+					}
+					walk(recvBlock)
+					if escape != nil {
+						setOnExhaust = false
+						escapeAt = c.at(escape.Instrs[len(escape.Instrs)-1])
+					}
+				}
 				if setOnExhaust {
 					accepted = fieldN(i)
 				}
@@ -845,7 +904,11 @@ func ruleSolutionsTypestate(c *Ctx, r *Report) {
 			if accepted != "" {
 				r.ok(rule, key, c.at(snd), desc, "the send is guarded by "+accepted+"==false and "+accepted+" is set where the answer channel reports closed", true)
 			} else {
-				r.bad(rule, key, c.at(snd), desc, "nothing records that the answer channel was found closed: the request channel (capacity "+c.chanCapOf(a)+") fills up and the next call blocks forever")
+				why := "nothing records that the answer channel was found closed"
+				if escapeAt != "" {
+					why = "the return at " + escapeAt + " is reachable with the answer channel found closed and the flag not set"
+				}
+				r.bad(rule, key, c.at(snd), desc, why+": the request channel (capacity "+c.chanCapOf(a)+") fills up and the next call blocks forever")
 			}
 		})
 	}
